@@ -335,6 +335,96 @@ def check_sampled(case):
 
 
 @st.composite
+def wide_cases(draw, tier):
+    """Functions of 6-9 (thorough: 10) inputs with structure: what a column does may show only in the upper rows, only
+    for some inputs, only beyond the first machine word of a packed table."""
+    n = draw(st.sampled_from([6, 7, 7, 8, 8, 9] if tier != 'thorough' else [6, 7, 7, 8, 8, 9, 9, 10]))
+    W = 1 << n
+    full = (1 << W) - 1
+    pats, mask = refsem.full_patterns(n)
+    cols = []
+    kinds = []
+    for _ in range(draw(st.integers(1, 2))):
+        kind = draw(st.sampled_from(['gate_fold', 'gate_fold', 'gated', 'gated', 'upper_rows', 'threshold', 'random', 'input_like']))
+        kinds.append(kind)
+        if kind in ('gate_fold', 'gated'):
+            sub = sorted({draw(st.integers(0, n - 1)) for _ in range(draw(st.integers(2, n)))})
+            op = draw(st.sampled_from(['and', 'or', 'xor']))
+            c = full if op == 'and' else 0
+            for k in sub:
+                lit = pats[k] ^ (mask if draw(st.integers(0, 3)) == 0 else 0)
+                c = (c & lit) if op == 'and' else (c | lit) if op == 'or' else (c ^ lit)
+            if kind == 'gated':
+                c &= pats[draw(st.integers(0, n - 1))]
+        elif kind == 'upper_rows':
+            # zero on the lower part of the table, arbitrary above
+            cut = draw(st.sampled_from([W // 2, W // 2, W - W // 4, 64 if W > 64 else W // 2]))
+            c = (draw(st.integers(0, (1 << (W - cut)) - 1)) << cut) & full
+            if draw(st.booleans()):
+                c ^= full
+        elif kind == 'threshold':
+            t = draw(st.integers(0, W))
+            c = full ^ ((1 << t) - 1)
+        elif kind == 'input_like':
+            c = pats[draw(st.integers(0, n - 1))] ^ (mask if draw(st.booleans()) else 0)
+        else:
+            c = draw(st.integers(0, full))
+        cols.append(c & full)
+    return {'n': n, 'cols': cols, 'kinds': kinds, 'rows': [draw(st.integers(0, W - 1)) for _ in range(6)]}
+
+
+def check_wide(case):
+    cirbo_core()
+    from cirbo.core.python_function import PyFunction
+    from cirbo.core.truth_table import TruthTable
+
+    n, cols = case['n'], case['cols']
+    m = len(cols)
+    table = [col_bits(c, n) for c in cols]
+
+    def f(args):
+        j = 0
+        for a in args:
+            j = (j << 1) | (1 if a else 0)
+        return [bool((c >> j) & 1) for c in cols]
+
+    reps = {'TruthTable': TruthTable(table), 'TruthTable(str)': TruthTable([''.join('1' if b else '0' for b in row) for row in table])}
+    if n <= 8:
+        reps['PyFunction'] = PyFunction(f, input_size=n)
+    exp = {'is_constant': all(d_constant(c, n) for c in cols)}
+    for i, c in enumerate(cols):
+        exp[f'is_constant_at({i})'] = d_constant(c, n)
+        for inv in (False, True):
+            exp[f'is_monotone_at({i},{inv})'] = d_monotone(c, n, inv)
+        for k in range(n):
+            exp[f'is_dependent_on_input_at({i},{k})'] = d_dependent(c, n, k)
+            exp[f'is_output_equal_to_input({i},{k})'] = d_equal_input(c, n, k, False)
+            exp[f'is_output_equal_to_input_negation({i},{k})'] = d_equal_input(c, n, k, True)
+        exp[f'get_significant_inputs_of({i})'] = [k for k in range(n) if d_dependent(c, n, k)]
+    for name, r in reps.items():
+        got = {'is_constant': r.is_constant()}
+        for i in range(m):
+            got[f'is_constant_at({i})'] = r.is_constant_at(i)
+            for inv in (False, True):
+                got[f'is_monotone_at({i},{inv})'] = r.is_monotone_at(i, inverse=inv)
+            for k in range(n):
+                got[f'is_dependent_on_input_at({i},{k})'] = r.is_dependent_on_input_at(i, k)
+                got[f'is_output_equal_to_input({i},{k})'] = r.is_output_equal_to_input(i, k)
+                got[f'is_output_equal_to_input_negation({i},{k})'] = r.is_output_equal_to_input_negation(i, k)
+            got[f'get_significant_inputs_of({i})'] = list(r.get_significant_inputs_of(i))
+        for key, e in exp.items():
+            if got[key] != e or type(got[key]) is not type(e):
+                raise Violation(f'query:{key.split("(")[0]}', f'{name}.{key} = {got[key]!r}, definition gives {e!r} (n={n}, column kinds {case["kinds"]})')
+        if [list(map(bool, row)) for row in r.get_truth_table()] != table:
+            raise Violation('query:get_truth_table', f'{name}: table differs (n={n})')
+        for j in case['rows']:
+            x = [bool((j >> (n - 1 - i)) & 1) for i in range(n)]
+            if [bool(v) for v in r.evaluate(x)] != [row[j] for row in table]:
+                raise Violation('query:evaluate', f'{name}.evaluate(row {j}) (n={n})')
+    return {'nt': not all(d_constant(c, n) for c in cols), 'cls': {f'n={n}'} | {'kind:' + k for k in case['kinds']}, 'key': [n, cols]}
+
+
+@st.composite
 def netlist_cases(draw, tier):
     nl = draw(gen.netlists(min_inputs=1, max_inputs=4, max_gates=14, max_arity=4, min_outputs=1, max_outputs=3,
                            styles=('plain', 'mixed'), const_operands=(0, 0, 1, 2, 3)))
@@ -574,12 +664,16 @@ SPEC = {
              'circuit built by an own DNF builder x every protocol query with every index argument, both inverse values, '
              'every non-empty output subset (+ reordered / repeated) for find_negations_to_make_symmetric; answers compared '
              'with definitions computed from the raw table (monotone = documented column-order sense) and pairwise. '
+             'Wide: structured functions of 6-9 (10) inputs (folds of a subset of possibly negated inputs, the same gated by an input, '
+             'columns that are zero below a row threshold, thresholds, input copies) - the per-input and per-output queries of TruthTable '
+             '(both spellings) and PyFunction against the definitions. '
              'Sampled: n=3-5 functions (random / symmetric-up-to-negation / threshold / input-like columns), random '
              'netlist circuits against their reference table, models with generated don\'t-cares (check/check_at/'
              'get_model_truth_table/define incl. incomplete definitions), integer wrappers in both bit orders, utility '
              'functions. Non-trivial: non-constant function.'),
     'assumptions': ['definitions in props/c12.py written from the protocol docstrings'],
     'subs': [Sub('sampled', func_cases, check_sampled, {'quick': 320, 'thorough': 30000}),
+             Sub('wide', wide_cases, check_wide, {'quick': 240, 'thorough': 8000}),
              Sub('netlist_circuit', netlist_cases, check_netlist, {'quick': 400, 'thorough': 30000}),
              Sub('models', model_cases, check_models, {'quick': 800, 'thorough': 50000}),
              Sub('int_wrappers', int_cases, check_int_wrappers, {'quick': 400, 'thorough': 20000})],
@@ -587,5 +681,6 @@ SPEC = {
     'replay': {'small_function_sweep': replay_sweep},
     'exhaustive': {'utilities': utilities},
     'required_classes': {'sampled': ['kind:symmetric', 'kind:threshold', 'kind:input_like', 'n=4'],
+                         'wide': ['n=7', 'n=8', 'n=9', 'kind:gated', 'kind:upper_rows', 'kind:gate_fold'],
                          'models': ['dc:some', 'string_form', 'value_form']},
 }
